@@ -47,7 +47,7 @@ def run(tier, replay=None):
     if ck.coq_ok:
         hdr = "From OpenAPI Require Import Model Generated_verbs Run.\nOpen Scope N_scope."
         lines = open(os.path.join(ck.work, "cases_ops.txt")).read().splitlines()
-        mism = ck.coq_eval_cases(lines, hdr, "nat * mdesign * list op * list op * list op", "mismatches", tag="ops")
+        mism = ck.coq_eval_cases(lines, hdr, "nat * mdesign * list op * list op * list op * (path * list (verb * path))", "mismatches", tag="ops")
     if not ck.coq_ok:
         if not ck.violations:
             ck.unproved("the OpenAPI development no longer checks: " + ck.coq_error,
